@@ -201,7 +201,7 @@ def ref_sci(user: bytes, hi: bool):
     half = struct.unpack(">e", int(b.take(16), 2).to_bytes(2, "big"))[0]
     items.append(("HALF", "Float", half, half))
     st = b.u(8)
-    items.append(("STATE", "Str", {0: "OFF", 1: "ON", 255: "FAULT"}[st], st))
+    items.append(("STATE", "Str", {0: "OFF", 1: "ON", 255: X.MARKUP_LABEL}[st], st))
     ar = b.u(8)
     items.append(("ARMED", "Bool", int(bool(ar)), ar))
     if hi:
